@@ -609,6 +609,9 @@ fn main() {
         cases.push("H reg 4;reg 5;inst 0 0;inst 1 0;reg 7;reg 8;inst 2 0;inst 3 0".into());
         cases.push("H reg 5;reg 4;inst 0 0;inst 1 0;imp 30 6".into());
         // three interfaces on one semver track, the first using a type of the second (aggregator `interfaces` scan)
+        // emission-order witnesses of props/C16.v section 9 (checked against the model's prediction by c16.py)
+        cases.push("H def 11 1;def 12 9;def 13 0".into());
+        cases.push("H imp 21 0;imp 22 1;def 11 0;def 12 1;reg 0;inst 0 0".into());
         cases.push("H imp 21 7;imp 22 8".into());
         cases.push("H imp 21 7".into());
         cases.push("H imp 23 9;imp 22 8".into());
